@@ -243,7 +243,7 @@ var dataModel = gcsModel{Module: "MC_GcsData",
 
 func init() {
 	checks["C02"] = func(c *Ctx) {
-		c.rule = "cases = request histories over buckets/objects: TLC-enumerated transitions of MC_GcsData (uploads, overwrites, deletes, reads...) and of MC_GcsResumable (every honest client step: fresh, re-sent and overlapping chunks, status queries, gaps) with BFS history, and seeded random programs (three upload protocols, gzip request bodies, three download URL forms, adversarial names); executed over HTTP on both stores; replies and read-back validated step by step by TLC against GcsData; distinct = distinct history text; non-trivial = at least two requests"
+		c.rule = "cases = request histories over buckets/objects: TLC-enumerated transitions of MC_GcsData (uploads, overwrites, deletes, reads...) and of MC_GcsResumable (every honest client step: fresh, re-sent and overlapping chunks, status queries, gaps) with BFS history, and seeded random programs (three upload protocols, gzip request bodies, three download URL forms, adversarial names, objects labelled contentEncoding gzip read with and without Accept-Encoding: gzip, and one program that opens more resumable sessions than the server keeps (1024, least recently used evicted)); executed over HTTP on both stores; replies and read-back validated step by step by TLC against GcsData; distinct = distinct history text; non-trivial = at least two requests"
 		c.runGcsFamily(gcsFamily{Label: "C02",
 			Models: []gcsModel{dataModel,
 				{Module: "MC_GcsResumable", Quick: map[string]string{"PayloadLen": "3", "MaxPuts": "4"}, Thorough: map[string]string{"PayloadLen": "4", "MaxPuts": "5"},
